@@ -83,6 +83,10 @@ def analyse(rows, baseline, ck):
         ns = [r["ntok"] for r in rs]
         info = {"tokens": ns}
         for wname, w in work.items():
+            if min(w) <= 0:
+                # a 32-bit counter of the library wrapped: only astronomically many probes do that
+                ck.violation("work_counter_wrapped:%s@%s" % (wname, fam), "family=%s la=%d %s=%s" % (fam, la, wname, w), ctx)
+                continue
             ratios = []
             for i in range(1, len(w)):
                 step = ns[i] / ns[i - 1]
